@@ -1,6 +1,12 @@
 import PsaDhcp.Proofs.CodeMisc
+import PsaDhcp.Proofs.CodeIpdbOps
 /-
-lib/server/ipdb/uip on the CODE: the translated `Valid()` / `ToV4()` are the model's.
+lib/server/ipdb on the CODE.  `PsaDhcp.Gen.ipdb.*` and `PsaDhcp.Gen.uip.*` are regenerated from /repo's
+lib/server/ipdb/ipdb.go and uip/uip.go on every check.  Every exported method of `*IPDB` — run in the environment
+`dbEnv S nowAt cancelAt` built from a store of the model (the clients table), the successive clock readings and the
+successive context checks (`Code/Bridge4.lean`) — returns the model's result and leaves the model's store, for every
+store state, argument, clock and oracle.  The model functions are the ones `ipdb_refine` (C11) relates to the
+reference table and whose steps the server system interleaves (C01–C05, C09).
 -/
 namespace PsaDhcp.Props.C11Code
 open PsaDhcp PsaDhcp.Go PsaDhcp.Code
@@ -11,5 +17,86 @@ theorem code_uip_valid (ux : UInt32) : Gen.uip.Uip_Valid ux = IPDB.validUip ux.t
 theorem code_uip_toV4 (ux : UInt32) : Gen.uip.Uip_ToV4 ux = ipToGen (Ip4.ofNat ux.toNat) := Proofs.CodeMisc.Uip_ToV4_eq ux
 
 example : Gen.uip.Uip_Valid 0x0a0000ff = false ∧ Gen.uip.Uip_Valid 0x0a000001 = true := by decide
+
+/-- `LookupClientByDuid`: one clock reading, one `Lookup(now, 0, duid)`. -/
+theorem code_lookupClientByDuid {σ : Type} (S : Store σ) (nowAt : Nat → Int) (cancelAt : Nat → Bool)
+    (ix : Gen.ipdb.IPDB) (db : IPDB σ) (duid : Bytes) (k c : Nat) (hix : IxOf ix db) :
+    (Gen.ipdb.IPDB_LookupClientByDuid (dbEnv S nowAt cancelAt) ix duid).run { s := db.s, nows := k, ctxs := c } =
+      .ok (addrResToGen (db.lookupByDuid S (nowAt k) duid).2,
+           { s := (db.lookupByDuid S (nowAt k) duid).1.s, nows := k + 1, ctxs := c }) :=
+  Proofs.CodeIpdbOps.LookupClientByDuid_eq S nowAt cancelAt ix db duid k c hix
+
+/-- `AddPermanentClient` -/
+theorem code_addPermanentClient {σ : Type} (S : Store σ) (nowAt : Nat → Int) (cancelAt : Nat → Bool)
+    (ix : Gen.ipdb.IPDB) (db : IPDB σ) (ip duid : Bytes) (k c : Nat) (hix : IxOf ix db) :
+    ∃ k', (Gen.ipdb.IPDB_AddPermanentClient (dbEnv S nowAt cancelAt) ix ip duid).run { s := db.s, nows := k, ctxs := c } =
+      .ok (unitResToGen' (db.addPermanent S (nowAt k) (ipOf ip) duid).2,
+           { s := (db.addPermanent S (nowAt k) (ipOf ip) duid).1.s, nows := k', ctxs := c }) :=
+  Proofs.CodeIpdbOps.AddPermanentClient_eq S nowAt cancelAt ix db ip duid k c hix
+
+/-- `UpdateClient`: the clock is read once; the never-shorten rule, the optimistic `SetLease`, `Inject`, `SetLease`. -/
+theorem code_updateClient {σ : Type} (S : Store σ) (hS : StoreWf S) (nowAt : Nat → Int) (cancelAt : Nat → Bool)
+    (ix : Gen.ipdb.IPDB) (db : IPDB σ) (ip duid : Bytes) (ttl : Int) (k c : Nat) (hix : IxOf ix db) :
+    ∃ k', (Gen.ipdb.IPDB_UpdateClient (dbEnv S nowAt cancelAt) ix ip duid ttl).run { s := db.s, nows := k, ctxs := c } =
+      .ok (unitResToGen' (db.updateClient S (nowAt k) (ipOf ip) duid ttl).2,
+           { s := (db.updateClient S (nowAt k) (ipOf ip) duid ttl).1.s, nows := k', ctxs := c }) :=
+  Proofs.CodeIpdbOps.UpdateClient_eq S hS nowAt cancelAt ix db ip duid ttl k c hix
+
+/-- `FindIP`: the caller's own address, else the suggestion (only inside the dynamic range and unbound) followed by
+the permutation `rand.Perm` returned, each candidate examined under the lock with its own context check, clock reading
+and probe; `uint32` wrap-around of `dynFrom + Uip(v)` included.  `nowAt 0` is the clock of the first `Lookup`,
+candidate `i` sees `orc i`. -/
+theorem code_findIP {σ : Type} (S : Store σ) (hS : StoreWf S) (ix : Gen.ipdb.IPDB) (db : IPDB σ) (ip duid : Bytes)
+    (perm : List Nat) (orc : Nat → IPDB.Iter) (now : Int) (hix : IxOf ix db) :
+    ∃ st, (Gen.ipdb.IPDB_FindIP (dbEnv S (fun j => if j = 0 then now else (orc (j - 1)).now) (fun i => (orc i).cancelled))
+              ix (isFreeOf orc) ip duid (perm.map Int.ofNat)).run { s := db.s, nows := 0, ctxs := 0 } =
+        .ok (addrResToGen (db.findIP S now (ipOf ip) duid perm orc).2, st)
+      ∧ st.s = (db.findIP S now (ipOf ip) duid perm orc).1.s :=
+  Proofs.CodeIpdbOps.FindIP_eq S hS ix db ip duid perm orc now hix
+
+/-- `SetDynamicRange` -/
+theorem code_setDynamicRange {σ : Type} (ix : Gen.ipdb.IPDB) (db : IPDB σ) (b e : Bytes) (hix : IxOf ix db) :
+    ∃ ix', Gen.ipdb.IPDB_SetDynamicRange ix b e = .ok (unitResToGen' (db.setDynamicRange (ipOf b) (ipOf e)).2, ix')
+      ∧ IxOf ix' (db.setDynamicRange (ipOf b) (ipOf e)).1 :=
+  Proofs.CodeIpdbOps.SetDynamicRange_eq ix db b e hix
+
+/-- `DisableDynamic` -/
+theorem code_disableDynamic {σ : Type} (ix : Gen.ipdb.IPDB) (db : IPDB σ) (hix : IxOf ix db) :
+    IxOf (Gen.ipdb.IPDB_DisableDynamic ix) db.disableDynamic := Proofs.CodeIpdbOps.DisableDynamic_eq ix db hix
+
+/-- The two stores of the project meet `StoreWf` (non-vacuity of the hypothesis above). -/
+theorem clientsStore_wf : StoreWf clientsStore := Proofs.CodeIpdbOps.clientsStore_wf
+theorem tableStore_wf : StoreWf Spec.tableStore := Proofs.CodeIpdbOps.tableStore_wf
+
+/-! Non-vacuity: the translated code evaluated on a concrete instance over `clientsStore`. -/
+
+/-- 10.0.0.0/24, dynamic range 10.0.0.100 .. 10.0.0.103, empty table. -/
+def exDb : IPDB Clients :=
+  { netFrom := 0x0a000001, netTo := 0x0a0000fe, dynFrom := 0x0a000064, dynTo := 0x0a000067, s := Clients.empty }
+
+def exOrc : Nat → IPDB.Iter := fun _ => { cancelled := false, now := 2000, free := true }
+
+def exEnv : Gen.DbEnv (DState Clients) := dbEnv clientsStore (fun _ => 1000) (fun i => (exOrc i).cancelled)
+
+/-- `UpdateClient(10.0.0.100, 01 02 03, 1h)` on the empty table, then `FindIP` for client `duid` without a
+suggestion, `rand.Perm` = 0, 1, 2, 3. -/
+def exRun (duid : Bytes) : R (Bytes × GoErr) :=
+  Except.map (fun r : (Bytes × GoErr) × DState Clients => r.1)
+    ((do
+      let _ ← Gen.ipdb.IPDB_UpdateClient exEnv (ixToGen exDb) [10, 0, 0, 100] [1, 2, 3] 3600000000000
+      Gen.ipdb.IPDB_FindIP exEnv (ixToGen exDb) (isFreeOf exOrc) [] duid [0, 1, 2, 3] :
+        StateT (DState Clients) R (Bytes × GoErr)).run { s := exDb.s, nows := 0, ctxs := 0 })
+
+example : IxOf (ixToGen exDb) exDb := ⟨by decide, by decide, by decide, by decide⟩
+
+/-- Another client is offered 10.0.0.101: candidate 10.0.0.100 is bound by the `UpdateClient` before. -/
+example : exRun [9] = .ok (ipToGen ⟨10, 0, 0, 101⟩, none) := by decide
+
+/-- The client bound by `UpdateClient` is offered its own address. -/
+example : exRun [1, 2, 3] = .ok (ipToGen ⟨10, 0, 0, 100⟩, none) := by decide
+
+/-- The same runs in the model (`code_updateClient`, `code_findIP` relate the two). -/
+example : ((exDb.updateClient clientsStore 1000 (some ⟨10, 0, 0, 100⟩) [1, 2, 3] 3600000000000).1.findIP clientsStore 1000
+    none [9] [0, 1, 2, 3] exOrc).2 = .ok 0x0a000065 := by decide
 
 end PsaDhcp.Props.C11Code
